@@ -267,7 +267,7 @@ def gen_case(cid, kinds, cfg, generic):
     # ignored variants contribute no conversion
     for vi in (ign if do_tryinto else ()):
         t = tuple(conv_tys(vi))
-        if t not in targets:
+        if t not in targets and not any(tuple(conv_tys(v)) == t for v in range(n) if v not in ign):
             tt = tup(list(t)) if t else "()"
             L.append('r.check("no TryFrom<E> for %s (only an ignored variant has these field types)", !(&Wrap::<%s, %s>(::core::marker::PhantomData)).has());' % (tt, tt, EE))
     mod = """use super::*;
@@ -324,6 +324,12 @@ def run(chk, tier):
     mix_alpha = ["unit", "t1a", "t1b", "t2"] + (["t2s", "n1"] if thorough else [])
     for kinds in itertools.product(mix_alpha, repeat=3):
         add(kinds, {"ignore": {0}, "enable_attr": {2}})
+        # an ignored variant first, then a variant asking for its reference accessors itself, next to one that does not: the selection
+        # belongs to the variant it is written on (not to its neighbour)
+        for vi in (1, 2):
+            if KINDS[kinds[vi]][0] is False and KINDS[kinds[vi]][1]:
+                add(kinds, {"ignore": {0}, "variant_refs": {vi}})
+                add(kinds, {"ignore": {0}, "variant_refs": {vi}, "variant_refmut": {vi}})
     # variants with an empty field list (`V()`, `V {}`): accessors exist and behave as for a variant with zero fields
     ek = ["t0", "n0"]
     for kinds in [(a,) for a in ek] + [p for a in ek for b in (["unit", "t1a", "t2"] + ek) for p in ((a, b), (b, a))] + [("t0", "unit", "t1a"), ("unit", "n0", "t0")]:
